@@ -169,8 +169,8 @@ theorem destroy_releases_all (dl cap : Nat) (grow : Nat → Nat) (exGe : Nat →
 
 /-! ### sort on at most one element -/
 theorem sort_le_one (a : ArraySized) (sortFn : List Elem → List Elem) (h : a.Inv)
-    (hperm : ∀ l, (sortFn l).Perm l) (h1 : a.size ≤ 1) : (a.sort sortFn).abs = a.abs := by
-  rw [(sort_spec a sortFn h (hperm a.abs)).2.1]
+    (hperm : ∀ l, (sortFn l).Perm l) (h1 : a.size ≤ 1) (m : Mem) : (a.sort sortFn m).1.abs = a.abs := by
+  rw [(sort_spec a sortFn m h (hperm a.abs)).2.1]
   have hl := abs_length a
   have hp := hperm a.abs
   match hab : a.abs with
